@@ -14,6 +14,7 @@
   curve `y² = x³ + 7` over F₄₃ (`Proofs/CurveAbsToy.lean`). Theorems that need no hypothesis say so.
   All inputs are quantified without size bounds.
 -/
+import BtcVerif.Props.GuardPins.P_ecc
 import BtcVerif.Proofs.ECCGroup
 import BtcVerif.Proofs.CurveAbsToy
 
